@@ -91,8 +91,12 @@ def run(rep, tier, seed):
                     data2 = data.copy(); data2[0, 1] = prev[1]
                     A2 = UTPM(data2.copy())
                     pv2, l2, u2 = UTPM.lu2(A2)
+                    def packed(t):
+                        Lp = UTPM(numpy.tril(t[0].data, -1)); Lp.data[0] += numpy.eye(N)
+                        return UTPM.dot(UTPM.piv2mat(t[1]), UTPM.dot(Lp, UTPM(numpy.triu(t[0].data, 0))))
                     for nm, rec_ in (("lu2", UTPM.dot(UTPM.piv2mat(pv2), UTPM.dot(l2, u2))),
-                                     ("lu", (lambda t: UTPM.dot(t[0], UTPM.dot(t[1], t[2])))(UTPM.lu(A2)))):
+                                     ("lu", (lambda t: UTPM.dot(t[0], UTPM.dot(t[1], t[2])))(UTPM.lu(A2))),
+                                     ("lu_factor", packed(UTPM.lu_factor(A2)))):
                         if abs(rec_.data - A2.data).max() > 1e-9 * (1 + abs(A2.data).max()):
                             rep.violation("UTPM.%s reassembly with different pivoting per direction %s" % (nm, sig), {"piv": [r["piv"], prev[0].tolist()]})
                     for p_, want in ((0, piv), (1, prev[0])):
